@@ -245,6 +245,8 @@ func GenC02(r *hx.Rng, tier string, w io.Writer) {
 			}
 		})
 	}
+	// long chains: parts of far-ahead blocks arrive first
+	farFamily(g, r, tier, w)
 	// random chains, orders with duplicates, restarts
 	n := 40
 	maxBlocks := 8
@@ -321,6 +323,123 @@ func GenC02(r *hx.Rng, tier string, w io.Writer) {
 		}
 		g.da = 0
 	}
+}
+
+// farScenario: a LONG chain (dist blocks above the node's start, almost all empty, a few non-empty blocks with pairwise different
+// tx lists near the top and one on the way) of which parts of the FAR-AHEAD non-empty blocks are delivered FIRST - while the node
+// is still at its start, dist (100 .. 1000+) heights below - and every part exactly once after that: nothing brings a part back
+// (the DA retriever never re-reads a DA height, the P2P store loops move their cursors past what they handed over), so a node
+// that does not keep an early part stays below the top for ever.  Duplicates of the early parts follow them IMMEDIATELY (still
+// far ahead); later duplicates are of headers only.
+//
+//	first: 0 data of the far blocks, 1 their headers, 2 both (data, then header), 3 both (header, then data)
+//	rest:  0 in height order, 1 shuffled, 2 shuffled inside windows of 40 events
+//	da:    events carry increasing DA heights (DA origin) or none (P2P origin)
+func farScenario(g *chainGen, r *hx.Rng, ih uint64, dist int, first, rest int, da bool, restart bool) {
+	g.reset(ih) // block ih (empty) is produced by reset: the node starts at ih-1
+	top := ih - 1 + uint64(dist)
+	mid := ih - 1 + uint64(dist) - 120 // on the way: some 120 heights below the top, when the chain is that long
+	tail := r.Intn(3)                  // blocks above the far block
+	for h := ih + 1; h <= top+uint64(tail); h++ {
+		switch {
+		case h == top, h == top-1 && r.Chance(50), h == top+1 && r.Chance(50), dist > 130 && h == mid:
+			g.produce(1)
+		default:
+			g.produce(0)
+		}
+	}
+	if da {
+		g.da = 1 + uint64(r.Intn(50))
+	}
+	var far []uint64
+	for h := ih; h < ih+g.n; h++ {
+		if !g.empty[h] {
+			far = append(far, h)
+		}
+	}
+	if r.Chance(50) { // highest first
+		for i, j := 0, len(far)-1; i < j; i, j = i+1, j-1 {
+			far[i], far[j] = far[j], far[i]
+		}
+	}
+	early := map[ev]bool{}
+	for _, h := range far {
+		var parts []ev
+		switch first {
+		case 0:
+			parts = []ev{{true, h}}
+		case 1:
+			parts = []ev{{false, h}}
+		case 2:
+			parts = []ev{{true, h}, {false, h}}
+		default:
+			parts = []ev{{false, h}, {true, h}}
+		}
+		for _, e := range parts {
+			g.emit(e)
+			early[e] = true
+			if r.Chance(35) {
+				g.emit(e) // duplicate, still far ahead
+			}
+		}
+	}
+	if restart { // a clean stop: the caches with the far-ahead parts are saved and loaded
+		fmt.Fprintln(g.w, "restart")
+	}
+	var evs []ev
+	for _, e := range g.events() {
+		if !early[e] {
+			evs = append(evs, e)
+		}
+	}
+	idx := make([]int, len(evs))
+	for i := range idx {
+		idx[i] = i
+	}
+	switch rest {
+	case 1:
+		idx = r.Perm(len(evs))
+	case 2:
+		for lo := 0; lo < len(evs); lo += 40 {
+			hi := lo + 40
+			if hi > len(evs) {
+				hi = len(evs)
+			}
+			for i, j := range r.Perm(hi - lo) {
+				idx[lo+i] = lo + j
+			}
+		}
+	}
+	for _, i := range idx {
+		g.emit(evs[i])
+		if !evs[i].dat && r.Chance(3) {
+			g.emit(ev{false, g.ih + uint64(r.Intn(int(g.n)))}) // a duplicate header
+		}
+	}
+	g.da = 0
+}
+
+// farFamily: see farScenario.  Sizes are fixed per tier; the seed chooses the variants.
+func farFamily(g *chainGen, r *hx.Rng, tier string, w io.Writer) {
+	if tier != "thorough" {
+		// P2P origin, data first, distance just above 256, the rest in order
+		farScenario(g, r, 1, 257+r.Intn(8), 0, 0, false, false)
+		// DA origin, distance 300, data or both first, the rest shuffled
+		farScenario(g, r, []uint64{1, 3}[r.Intn(2)], 300, []int{0, 2, 3}[r.Intn(3)], 1+r.Intn(2), true, r.Chance(30))
+		// distance 100, headers (or both) first
+		farScenario(g, r, 1, 100, 1+r.Intn(3), r.Intn(3), r.Chance(50), false)
+		return
+	}
+	for _, dist := range []int{100, 257, 300, 600} {
+		for first := 0; first < 4; first++ {
+			if dist == 600 && first != int(r.Seed%4) && first != 0 {
+				continue // the 600 chain: data first and one more variant per seed
+			}
+			farScenario(g, r, []uint64{1, 1, 2, 5}[r.Intn(4)], dist+r.Intn(6), first, r.Intn(3), (first+dist+int(r.Seed))%2 == 0, r.Chance(25))
+		}
+	}
+	// 1000+ heights ahead: once, data first, the rest in order; P2P / DA origin by the seed
+	farScenario(g, r, 1, 1030, 0, 0, r.Seed%2 == 0, false)
 }
 
 // GenC05: a crash after every prefix of the three durable writes of applying a block, then any delivery order
